@@ -29,7 +29,7 @@ fn c23_interior_accessors_total() {
     assert!(vs::is_ok_forget(InteriorNode::from_page(&pg.0[..n])).is_none());
 }
 
-//@ props=C23 kind=bounded small_pages=1 tier=thorough timeout=3000 bound="PAGE_SIZE scaled to 256 bytes; probe key <= 3 bytes"
+//@ props=C23 kind=bounded small_pages=1 tier=manual timeout=3000 bound="PAGE_SIZE scaled to 256 bytes; probe key <= 3 bytes"
 /// InteriorNode::find_child on arbitrary page bytes and any probe key: Ok or Err, terminates (binary search
 /// bounded by cell_count: u16 => <= 17 iterations), never panics or reads outside the page
 #[kani::proof]
